@@ -131,8 +131,59 @@ def check_finish(out, obs, expect_failed, sig):
     return out
 
 
+def run_one_threads(tape, cfg, out):
+    """E2: concurrent threaded.get clients; one (or two) of them has a failing body.
+    The failing client must satisfy the failure oracle; its neighbours (sharing the
+    pool) must still return their right values."""
+    from sim import schedthreads as st
+
+    spec, tcfg, clients, reqs = c01.gen_threads_workload(tape, cfg)
+    vals, calls, deps = gg.evaluate(spec)
+    needs = [gg.needed(spec, c["request"], deps) for c in clients]
+    armed = []
+    with tape.span("fault"):
+        for i, c in enumerate(clients):
+            if i == 0 or tape.chance(1, 3, "also"):
+                sites = [t for n in spec["nodes"] if gg.K(n["key"]) in needs[i]
+                         for t in gg.node_call_tags(n)]
+                if sites:
+                    c["fail"] = {sites[tape.draw(len(sites), "site")]:
+                                 KINDS[tape.draw(len(KINDS), "kind")]}
+                    armed.append(i)
+    obs_list, sched = st.run_threads(tape, spec, clients, tcfg)
+    c01.threads_outcome(out, obs_list, sched, spec, reqs, tcfg, [len(n) for n in needs])
+    out.klass = "threads_task_raises"
+    out.decoded["faults"] = [[i, [[list(t), k] for t, k in (c["fail"] or {}).items()]]
+                             for i, c in enumerate(clients)]
+    rcfg = {"entry": "threaded"}
+    for i, (obs, c) in enumerate(zip(obs_list, clients)):
+        if c["fail"]:
+            nraise = sum(1 for e in obs.log if e[0] == "raise")
+            out.faults["task_raises"] = out.faults.get("task_raises", 0) + nraise
+            check_failure(out, obs, spec, deps, needs[i], c["fail"], rcfg, "task_raises")
+        else:
+            expected = gg.expected_result(c["request"], vals)
+            if obs.exc is not None:
+                d = sr.describe_exc(obs.exc)
+                out.violate("neighbour_failed", f"client {i} had no fault but raised {d['exc_type']} at "
+                                                f"{d['site']}: {d['msg']}", fault_sig="threaded:neighbour")
+            elif taskfns.norm(obs.value) != taskfns.norm(expected):
+                out.violate("wrong_value_after_fault", f"client {i}: got {obs.value!r} expected "
+                                                       f"{expected!r}", fault_sig="threaded:neighbour")
+            else:
+                check_finish(out, obs, False, "threaded:neighbour")
+        if out.status == "violation":
+            out.details["entry"] = "threads"
+            out.message = f"client {i}: " + out.message
+            break
+    out.nontrivial = out.nontrivial and bool(out.faults)
+    return out
+
+
 def run_one(tape, cfg):
     out = Outcome()
+    if c01.use_threads(tape, cfg):
+        return run_one_threads(tape, cfg, out)
     spec, req_json, request, rcfg = c01.gen_workload(tape, cfg)
     vals, calls, deps = gg.evaluate(spec)
     needed = gg.needed(spec, request, deps)
